@@ -544,6 +544,8 @@ func checkC02(e *Env, r *Report) {
 	if f == nil {
 		return
 	}
+	// the order of the hook events of one real run against the pipeline state machine
+	pipelinePhase(e, r, f.aug, Cfg{"arch", 4, "4.1", "complain", true})
 	recs := []any{}
 	// (1) repetition and stale-directory independence
 	var cfgs []Cfg
